@@ -9,8 +9,8 @@ from props.common import merge
 sys.path.insert(0, os.path.join(os.path.dirname(os.path.dirname(os.path.abspath(__file__))), 'corr'))
 import tractcorr
 
-THRU = [' - ', '-', ' – ', '—', ' through ', ' thru ', ' to ', '- ', ' -']
-AND = [' and ', ' & ', ', ', ', and ', ',', ' and, ']
+THRU = [' - ', '-', ' – ', '—', ' through ', ' thru ', ' to ', '- ', ' -', ' Through ', ' THROUGH ', ' Thru ', ' THRU ', ' TO ']
+AND = [' and ', ' & ', ', ', ', and ', ',', ' and, ', ' AND ', ' And ']
 SEC_SING = ['Section', 'Sec', 'Sec.', 'Sect.', 'section', 'SECTION', '§']
 SEC_PLUR = ['Sections', 'Secs', 'Secs.', 'Sects.', 'sections']
 LOT_SING = ['Lot', 'lot', 'LOT']
